@@ -17,6 +17,12 @@
 //	          by no statement, and probes it last: whatever the operation does to the receiver, the twin
 //	          is still the value that was written down (frame condition of the reference model).
 //
+//	(h) literal indexing with the names of the analyzer's member table: `recv["keys"]`, `recv["len"]`, ...
+//	          on every type instance (objects and any-objects also through `recv[k]` / `recv->name`). A
+//	          builtin member is no entry of the value; when the analyzer accepts the literal form for a
+//	          name the type declares no data field for, it offers an entry, and the runtimes must have it
+//	          (judgeOffered: an interrupt "no such field" or a result of another type is a violation).
+//
 //	(g) a program the analyzer rejects is skipped (and counted) unless a diagnostic sits on the statement
 //	          that performs the operation AND the same statement alone, as the body of a function whose
 //	          parameters carry the receiver type and exactly the advertised parameter types, is rejected
@@ -72,6 +78,7 @@ func (c18) Info(tier string) fw.Info {
 			"recv[i] / recv[\"k\"] / recv[k] / recv->k with the same index sets, and the same places (object fields, list elements, object keys) as assignment targets read back afterwards. " +
 			"The type instances include objects whose fields are named like builtin members (the names objects reserve, e.g. keys/to_json, and the names of {?} members, e.g. to_string/get/set) and an any-object with such data keys. " +
 			"Also lists and objects whose element / field cells hold empty options ([?int], [{a:?int}], {a:?int,b:str}, {o:?str,l:[?int]}) and any-objects holding none / null / a list with none. " +
+			"Literal indexing recv[\"name\"] is tried with every name of the member table of the type on every instance (objects / any-objects also recv[k] and recv->name): accepted by the analyzer for a name the type declares no data field for = offered, the runtime value must then have the entry with the type the table gives. " +
 			"Where the reference model leaves the answer open (value or interrupt) the program additionally runs on both runtimes in one case and both must accept or both must interrupt. Receivers are built as literals and, where expressible, also by parse_json and by a cast to {?}; " +
 			"as the variable of a for loop over a one-element list and through a cast to the receiver's own type for every in-place assignment and, with up to 6 (thorough: 24) argument tuples per member, for the last receiver of each type. " +
 			"Lists, objects and any-objects are also built by a helper function whose body is the construction (fresh origin): receiver, twin and a third value made after the operation are three products of one construction site (every in-place assignment, every member call the model says writes into the receiver, and everything for the last receiver of each type); the third value must be the value written down. " +
@@ -91,6 +98,7 @@ func (c18) Info(tier string) fw.Info {
 			"to_json / to_json_indent return JSON text that denotes the receiver: arrays with every element in order, objects with every data field, none / null as JSON null, Some(x) as x; layout, key order and number spelling are not modelled (C13)",
 			"an operation on one value leaves a second, separately constructed value alone, whatever produced the two (literal, parse_json, cast, loop variable)",
 			"a data field named like a builtin member is the member the analyzer offers (with the type of the field): reading and assigning it must reach the field in both runtimes",
+			"a literal index `recv[\"name\"]` the analyzer accepts although the receiver type declares no data field `name` is an offer of the analyzer (it otherwise answers such an index with a diagnostic): the runtimes must deliver a value for it, of the type the member table lists under that name if it lists one",
 			"programs the analyzer rejects are skipped (counted as analyzer-rejected); the run is broken if a (backend,type,member) pair is never exercised",
 			"exception: 'accepts the advertised arguments' binds the analyzer too. When a diagnostic sits on the statement performing the operation and that statement alone in `fn op(recv: T, a0: P0, ...) { ... }` (T the receiver type, Pi the parameter types of the analyzer's own table, no literal anywhere) is rejected as well, the rejection is a violation; diagnostics that only concern the construction of receiver / arguments stay a matter of the self-check",
 			"a singleton the host does not provide starts as 0 / 0.0 / false / \"\" / [] / empty any-object / none, objects field by field, and is a value of its declared type like any other (types holding a range are left out: the two runtimes start a range at different values, which is not a statement about members)",
@@ -324,6 +332,11 @@ func (c18) Cases(tier string, seed uint64) []fw.Case {
 			case "obj", "anyobj":
 				keys := []string{"a", "zz", "", "keys"}
 				keys = append(keys, sortedKeys(recv.M)...)
+				// ... and every name of the analyzer's member table of the type: a builtin member is
+				// reached with `recv.name`, it is not an entry `recv["name"]` / `recv[k]` / `recv->name`
+				// finds (unless a data field carries that name). Should the analyzer accept the literal
+				// form, it offers an entry, which then has to exist (judgeOffered).
+				keys = append(keys, sortedTypeKeys(memberTable(in.T))...)
 				seen := map[string]bool{}
 				for _, k := range keys {
 					if seen[k] {
@@ -359,6 +372,16 @@ func (c18) Cases(tier string, seed uint64) []fw.Case {
 							}
 						}
 					}
+				}
+			}
+			// Lists and strings take ints, the other kinds (scalars, ranges, options, null, functions)
+			// take no index at all. The literal form with the name of one of their members is put
+			// before the analyzer all the same (base construction of each receiver): whatever it
+			// accepts there it offers, and the entry then has to exist (judgeOffered).
+			if recv.K != "obj" && recv.K != "anyobj" && !rc.AssignOnly && !rc.Extra() && origin == originsOf(recv)[0] {
+				for _, k := range sortedTypeKeys(memberTable(in.T)) {
+					src, pr := indexProgram(in, recv, origin, "idx-lit", vStr(k), "let")
+					addRuns(payload{Part: "idx-lit", Inst: in.Name, Recv: recv, Origin: origin, Args: []rv{vStr(k)}, Form: "let", Print: pr, Src: src}, interrupt(recv.clone()))
 				}
 			}
 		}
@@ -580,6 +603,17 @@ func runProgram(p *payload, in inst) (res fw.Result) {
 		}
 		return res
 	}
+	offered := false
+	if adv == nil && p.Part == "idx-lit" {
+		// The type has no data field of that name (or takes no string index at all), and yet the
+		// analyzer let `recv["name"]` pass without a diagnostic: it offers an entry of that name on
+		// the type. The property binds the runtimes to it: the entry has to be there.
+		offered = true
+		adv = ast.NewAnyType(sp0)
+		if mt, ok := memberTable(in.T)[p.Args[0].S]; ok {
+			adv = mt
+		}
+	}
 	if adv == nil {
 		return fw.Result{Verdict: fw.Inconclusive, Why: "the analyzer accepted an index expression the generator has no type for: " + p.Src}
 	}
@@ -620,7 +654,12 @@ func runProgram(p *payload, in inst) (res fw.Result) {
 		ob = observe(p.Backend)
 		res.Nontrivial = true
 		res.Cover = append(res.Cover, pairKey(p), "outcome:"+ob.outcome.Class, "expect:"+e.Mode)
-		fails = judge(p, in, e, adv, ob)
+		if offered {
+			res.Cover = append(res.Cover, "analyzer-offered-literal-index")
+			fails = judgeOffered(p, in, adv, ob)
+		} else {
+			fails = judge(p, in, e, adv, ob)
+		}
 	}
 	if ob.residue != "" && len(fails) == 0 {
 		fails = append(fails, failure{"vm-residue", "the run completed but the core left something behind (a member operation that pushes or pops one value too many): " + ob.residue})
@@ -841,6 +880,41 @@ func judgeAgree(e expect, vm, tree observed) []failure {
 	}
 	if (vm.outcome.Class == "ok") != (tree.outcome.Class == "ok") {
 		return []failure{{"backends-disagree", fmt.Sprintf("the same operation on the same value is accepted by one runtime and refused by the other: the VM %s, the interpreter %s", render(vm), render(tree))}}
+	}
+	return nil
+}
+
+// judgeOffered judges `recv["name"]` where the receiver type declares no data field `name` and the
+// analyzer accepted the expression nevertheless. Accepting it is offering it (a literal index the
+// type does not have is otherwise a diagnostic), so the runtime value must have the entry: an
+// interrupt saying that there is no such field / that the value cannot be indexed refutes the
+// property, and so does a result that is not of the type the member table gives to that name.
+func judgeOffered(p *payload, in inst, adv ast.Type, ob observed) []failure {
+	name := p.Args[0].S
+	if f := notAnAnswer(ob.outcome); f != nil {
+		return f
+	}
+	if len(ob.probes) == 0 || ob.probes[0].K != "bool" {
+		return []failure{{"setup-failed", "the receiver could not be constructed: " + util.Clip(ob.outcome.String(), 200)}}
+	}
+	what := fmt.Sprintf("the analyzer accepts `recv[%s]` on %s without a diagnostic although the type declares no data field `%s`", strLit(name), p.Inst, name)
+	if mt, ok := memberTable(in.T)[name]; ok {
+		what += fmt.Sprintf(" (its member table lists `%s` as %s: the builtin member is offered through a literal index)", name, typeName(mt))
+	}
+	if ob.outcome.Class != "ok" {
+		return []failure{{"offered-index-missing:" + ob.outcome.Class + "/" + ob.outcome.Kind, fmt.Sprintf(
+			"%s, but the runtime value %s has no such entry: the run ended with %s", what, show(p.Recv), util.Clip(ob.outcome.String(), 200))}}
+	}
+	if len(ob.probes) < 2 {
+		return []failure{{"no-probe", fmt.Sprintf("the run ended ok but %d values were probed", len(ob.probes)-1)}}
+	}
+	r := ob.probes[1]
+	if _, isFn := adv.(ast.FunctionType); isFn {
+		if r.K != "fn" {
+			return []failure{{"offered-index-ill-typed", fmt.Sprintf("%s, and the runtime delivers %s, which is not a function", what, show(r))}}
+		}
+	} else if ok, why := hasType(r, adv); !ok {
+		return []failure{{"offered-index-ill-typed", fmt.Sprintf("%s, and the runtime delivers %s, which does not conform to %s: %s", what, show(r), typeName(adv), why)}}
 	}
 	return nil
 }
